@@ -584,6 +584,8 @@ ObsStep(m, e) ==
     [] e.e = "panic" -> R(m, {"C13_NoPanic"})
     [] e.e = "nodeadline" -> R(m, {"C13_BoundedWait"})
     [] e.e = "harness-panic" -> R(m, {"Harness_Panic"})
+    \* a record of an earlier incarnation that had got as far as the PUBREC: the broker forwarded that message then
+    [] e.e = "seedrec" -> IF Has(m.msgs, e.tag) THEN R([m EXCEPT !.msgs[e.tag].rec = TRUE, !.msgs[e.tag].deliv = 1], {}) ELSE R(m, {})
     \* ReadBackoff after an error of ReadSlices: nil exactly for ErrClosed, else closed within the configured bounds
     [] e.e = "backoff" -> R(m, If(e.nil # e.closed, "C14_BackoffNilIffPermanent")
                               \cup If(~e.closed /\ ~e.nil /\ e.late, "C10_BackoffWithinBounds"))
